@@ -1,8 +1,9 @@
 import PyrefactModel.C12.Match
+import PyrefactModel.C12.SelfMatch
 /-!
 # C12 — pattern matching agrees with its declarative semantics (property theorems)
 
-Soundness is proved in full; completeness holds on the fragment without backtracking across nested choice
+Soundness and self-match are proved in full; completeness holds on the fragment without backtracking across nested choice
 points and is false in general (counterexample replayed on the real code, known finding).
 -/
 namespace C12
@@ -26,6 +27,18 @@ theorem match_sound' (key : Key) (isinst : String → List String → Bool) (fue
 theorem match_functional (key : Key) (isinst : String → List String → Bool) (fuel : Nat) (v : Val) (t : Tm)
     (b : Bnd) (h : matchT key isinst fuel v t = some b) : Func b :=
   (functional key isinst fuel).1 v t b h
+
+/-- **Every piece of code matches itself**: a tree read as a template (atoms as literals, lists as lists of single
+items, nodes as node templates over all their fields) is accepted by the matcher, with no bindings, for every tree
+whose nodes have distinct field names, every class hierarchy in which a class is an instance of itself, and every
+fuel from `need v` on. -/
+theorem match_self (key : Key) (isinst : String → List String → Bool) (hrefl : ∀ ty, isinst ty [ty] = true)
+    (v : Val) (hw : WF v) (fuel : Nat) (hf : need v ≤ fuel) : matchT key isinst fuel v (asTm v) = some [] :=
+  self_match key isinst hrefl v hw fuel hf
+
+/-- the hypotheses are satisfiable: a call node with a list argument -/
+example : WF (.node "Call" [("func", .atom "Name:f"), ("args", .list [.atom "int:1", .atom "int:2"])]) := by
+  simp [WF, WFF, WFL]
 
 /-- a wildcard without constraints matches everything; a tree never matches a literal of another text -/
 example (key : Key) (isinst : String → List String → Bool) (v : Val) :
